@@ -10,6 +10,12 @@
          clamp mixing a scaled quantity with an absolute constant
   C19.c  index-space agreement in the factories: an index drawn over range(n)
          with n = len(A) only subscripts A
+  C19.i  the location and scale matrix unpacked from the fit reach the mode-statistics
+         constructor through value-preserving steps only, and in the per-mode loop
+         every appended entry is that iteration's own fit result
+  C19.h  the location the iteration starts from -- which the fit returns unchanged
+         when the first nu update lands in the Gaussian limit -- is built on a
+         per-coordinate order statistic, not on a sample moment
 Equivariance under per-coordinate scaling/permutation, bounding-box containment,
 SPD-ness and parameter recovery are numerical and not decided.
 """
@@ -25,7 +31,7 @@ from ..degree import INV, DegreeInterp, T, deg
 from ..engine import Context, Reporter
 from ..model import AnalysisError, ClassInfo, FuncInfo, dotted, norm_text, walk_no_nested
 from ..provenance import Tracer
-from ..util import call_arg, calls_in, calls_in_node, const_value, unparse
+from ..util import bound_arguments, call_arg, calls_in, calls_in_node, const_value, unparse
 
 PROP = "C19"
 EXPLANATION = (
@@ -447,6 +453,183 @@ def rule_f(ctx: Context, R: Reporter, fit: FuncInfo):
             R.check("C19.f", f"{m.short} is equivariant under per-coordinate scaling up to the fit (typing closed)", True, m, m.node, key=f"coord-clean:{m.name}")
 
 
+def rule_h(ctx: Context, R: Reporter, fit: FuncInfo):
+    """C19.h  breakdown of the starting location.  The location the iteration starts from is also what the fit *returns*
+    whenever the first degrees-of-freedom update lands in the Gaussian limit (the early return inside the loop), so it must
+    itself be a consistent location estimate for every law the property quantifies over -- including t laws with nu <= 1,
+    which have no mean.  Decided on the expression that defines the returned location before the loop: built on a
+    per-coordinate order statistic (median / quantile / percentile) -> discharged; built on a moment of the sample (mean,
+    average, sum) and no order statistic -> violation; anything else -> undecided."""
+    rets = [r for r in walk_no_nested(fit.node) if isinstance(r, ast.Return) and isinstance(r.value, ast.Tuple) and len(r.value.elts) == 3]
+    locs = set()
+    for r in rets:
+        b = r.value.elts[0]
+        while isinstance(b, (ast.Subscript, ast.Attribute, ast.Call)):
+            b = b.value if not isinstance(b, ast.Call) else b.func
+        if isinstance(b, ast.Name):
+            locs.add(b.id)
+    if len(locs) != 1:
+        raise AnalysisError(f"C19.h: returned location is not one variable ({sorted(locs)})")
+    loc = next(iter(locs))
+    pre = []
+    for st in fit.node.body:
+        if isinstance(st, (ast.While, ast.For)):
+            break
+        pre.append(st)
+    else:
+        raise AnalysisError("C19.h: no iteration found in the fit")
+    defs: Dict[str, ast.AST] = {}
+    for st in pre:
+        if isinstance(st, ast.Assign) and len(st.targets) == 1 and isinstance(st.targets[0], ast.Name):
+            defs[st.targets[0].id] = st
+        elif isinstance(st, (ast.If, ast.Try, ast.With)) and any(isinstance(x, ast.Name) and isinstance(x.ctx, ast.Store) and x.id == loc for x in ast.walk(st)):
+            raise AnalysisError("C19.h: starting location is defined conditionally (not modelled)")
+    if loc not in defs:
+        raise AnalysisError(f"C19.h: no definition of `{loc}` before the iteration")
+    start = defs[loc]
+    seen, kinds = set(), set()
+
+    def visit(e, depth):
+        for x in ast.walk(e):
+            if isinstance(x, ast.Call):
+                nm = ctx.res.external_name(fit, x) or (x.func.attr if isinstance(x.func, ast.Attribute) else "")
+                leaf = nm.split(".")[-1]
+                if leaf in ("median", "nanmedian", "quantile", "percentile", "nanquantile", "nanpercentile", "partition", "sort", "argsort"):
+                    kinds.add("order")
+                elif leaf in ("mean", "average", "sum", "nanmean", "nansum", "einsum", "dot", "trapz"):
+                    kinds.add("moment")
+            elif isinstance(x, ast.Name) and isinstance(x.ctx, ast.Load) and x.id in defs and x.id not in seen and depth < 5 and x.id not in {a.arg for a in fit.node.args.args}:
+                seen.add(x.id)
+                visit(defs[x.id].value, depth + 1)
+
+    seen.add(loc)
+    visit(start.value, 0)
+    if "order" in kinds:
+        R.check("C19.h", "the location the iteration starts from (and returns in the Gaussian limit) is built on a per-coordinate order statistic", True, fit, start, key="start-location-robust")
+    elif "moment" in kinds:
+        R.check("C19.h", "the location the iteration starts from (and returns in the Gaussian limit) is built on a per-coordinate order statistic", False, fit, start,
+                msg=f"{fit.short}: starting location `{unparse(start.value)[:70]}` is a sample moment: for t-distributed data with nu <= 1 it does not converge, and it is returned as is when the first nu update lands in the Gaussian limit",
+                key="start-location-robust")
+    else:
+        raise AnalysisError(f"C19.h: starting location `{unparse(start.value)[:60]}` is neither an order statistic nor a sample moment (not modelled)")
+
+
+_PRESERVING_METHODS = ("reshape", "copy", "astype", "ravel", "flatten", "squeeze", "view")
+_PRESERVING_FUNCS = ("numpy.asarray", "numpy.array", "numpy.atleast_1d", "numpy.atleast_2d", "numpy.ascontiguousarray", "numpy.asanyarray", "numpy.squeeze", "numpy.copy", "numpy.stack", "numpy.vstack")
+
+
+def _strip_preserving(ctx: Context, fi: FuncInfo, e: ast.expr) -> ast.expr:
+    """the expression under re-shapings, copies and container wrappers that keep every value"""
+    while True:
+        if isinstance(e, ast.Call) and isinstance(e.func, ast.Attribute) and e.func.attr in _PRESERVING_METHODS and not (ctx.res.external_name(fi, e) or "").startswith("numpy."):
+            e = e.func.value
+        elif isinstance(e, ast.Call) and (ctx.res.external_name(fi, e) or "") in _PRESERVING_FUNCS and e.args:
+            e = e.args[0]
+        elif isinstance(e, (ast.List, ast.Tuple)) and len(e.elts) == 1:
+            e = e.elts[0]
+        elif isinstance(e, ast.Attribute) and e.attr == "T":
+            e = e.value
+        elif isinstance(e, ast.Subscript) and all(isinstance(i, ast.Slice) or (isinstance(i, ast.Constant) and i.value in (None, Ellipsis)) or (isinstance(i, ast.Attribute) and i.attr == "newaxis")
+                                                   for i in (e.slice.elts if isinstance(e.slice, ast.Tuple) else [e.slice])):
+            e = e.value
+        else:
+            return e
+
+
+def rule_i(ctx: Context, R: Reporter, fit: FuncInfo):
+    """C19.i  what the fit returned is what the proposal gets.  In every factory the location and the scale matrix unpacked
+    from the Student-t fit reach the mode-statistics constructor through value-preserving steps only (re-shaping, copying,
+    stacking): no later statement re-defines them from other quantities, and in the per-mode loop every entry appended to
+    the lists handed to the constructor is the fit result of that same iteration (a mode never receives the statistics of
+    another particle set)."""
+    from .c14 import mode_class
+
+    mc = mode_class(ctx)
+    n_sites = 0
+    for m in [x for x in mc.methods.values() if x.name != "__init__"]:
+        sites = [st for st in walk_no_nested(m.node) if isinstance(st, ast.Assign) and isinstance(st.value, ast.Call)
+                 and fit in [t for t in ctx.res.call_targets(m, st.value) if isinstance(t, FuncInfo)]]
+        if not sites:
+            continue
+        if len(sites) != 1:
+            raise AnalysisError(f"C19.i: {m.short}: {len(sites)} fit call sites in one factory (not modelled)")
+        site = sites[0]
+        tgt = site.targets[0]
+        if not (isinstance(tgt, ast.Tuple) and len(tgt.elts) == 3 and all(isinstance(x, ast.Name) for x in tgt.elts)):
+            raise AnalysisError(f"C19.i: {m.short}: fit result is not unpacked into three names")
+        n_sites += 1
+        fitted = {"means": tgt.elts[0].id, "covariances": tgt.elts[1].id}
+        # (1) no re-definition from other quantities
+        for st in walk_no_nested(m.node):
+            if st is site:
+                continue
+            tnames = []
+            if isinstance(st, ast.Assign):
+                tnames = [x.id for t in st.targets for x in ast.walk(t) if isinstance(x, ast.Name) and isinstance(x.ctx, ast.Store)]
+            elif isinstance(st, (ast.AugAssign, ast.AnnAssign)) and isinstance(st.target, ast.Name):
+                tnames = [st.target.id]
+            elif isinstance(st, (ast.For, ast.comprehension)):
+                tnames = [x.id for x in ast.walk(st.target) if isinstance(x, ast.Name)]
+            for role, nm in fitted.items():
+                if nm not in tnames:
+                    continue
+                val = getattr(st, "value", None)
+                core = _strip_preserving(ctx, m, val) if val is not None and isinstance(st, ast.Assign) else None
+                if isinstance(core, ast.Name) and core.id == nm:
+                    continue  # re-shaped / copied
+                reads = {x.id for x in ast.walk(val) if isinstance(x, ast.Name) and isinstance(x.ctx, ast.Load)} if val is not None else set()
+                others = sorted(r for r in reads - {nm, "np", "numpy", "cls", "self"} if r not in ctx.prog.modules and not r[:1].isupper())
+                if isinstance(st, ast.AugAssign) or others or not reads:
+                    R.check("C19.i", f"{m.short}: the fitted {role[:-1]} reaches the constructor unaltered", False, m, st,
+                            msg=f"{m.short}: `{norm_text(st)[:80]}` re-defines the fitted {'location' if role == 'means' else 'scale matrix'} `{nm}` after the fit"
+                                + (f" from {others[:3]}" if others else "") + ": the proposal no longer carries the parameters the fit recovered", key=f"fit-result-altered:{m.name}:{role}")
+                else:
+                    raise AnalysisError(f"C19.i: {m.short}: `{norm_text(st)[:60]}` rewrites `{nm}` in terms of itself (not modelled)")
+        # (2) the constructor's arguments
+        ctor = [c for c in calls_in(m.node) if isinstance(c.func, ast.Name) and c.func.id == "cls" or mc in [t for t in ctx.res.call_targets(m, c) if isinstance(t, ClassInfo)]]
+        if not ctor:
+            raise AnalysisError(f"C19.i: {m.short}: no constructor call found")
+        loops = [l for l in walk_no_nested(m.node) if isinstance(l, (ast.For, ast.While)) and any(x is site for x in ast.walk(l))]
+        for c in ctor:
+            bound = dict((n, v) for n, v in bound_arguments(c) if n)
+            if not bound:
+                params = [p for p in mc.methods["__init__"].params if p != "self"]
+                bound = {p: a for p, a in zip(params, c.args)}
+                bound.update({k.arg: k.value for k in c.keywords if k.arg})
+            for role, nm in fitted.items():
+                if role not in bound:
+                    raise AnalysisError(f"C19.i: {m.short}: constructor call does not name `{role}`")
+                core = _strip_preserving(ctx, m, bound[role])
+                if not isinstance(core, ast.Name):
+                    R.check("C19.i", f"{m.short}: the constructor's {role} are the fit results", False, m, c,
+                            msg=f"{m.short}: `{role}={unparse(bound[role])[:60]}` is not the fitted value under re-shaping", key=f"ctor-arg:{m.name}:{role}")
+                    continue
+                if core.id == nm and not loops:
+                    R.check("C19.i", f"{m.short}: the constructor's {role} are the fit results", True, m, c, key=f"ctor-arg:{m.name}:{role}")
+                    continue
+                # a list filled in the per-mode loop
+                L = core.id
+                appends = [a for a in calls_in(m.node) if isinstance(a.func, ast.Attribute) and a.func.attr in ("append", "extend", "insert") and isinstance(a.func.value, ast.Name) and a.func.value.id == L]
+                if not appends or not loops:
+                    R.check("C19.i", f"{m.short}: the constructor's {role} are the fit results", False, m, c,
+                            msg=f"{m.short}: `{role}={unparse(bound[role])[:60]}` does not trace to the fit result `{nm}`", key=f"ctor-arg:{m.name}:{role}")
+                    continue
+                inner = loops[-1]
+                for a in appends:
+                    item = _strip_preserving(ctx, m, a.args[-1]) if a.args and a.func.attr != "extend" else None
+                    same_iteration = any(x is a for x in ast.walk(inner))
+                    ok = isinstance(item, ast.Name) and item.id == nm and same_iteration
+                    R.check("C19.i", f"{m.short}: every entry of `{L}` is the fit of that mode's own particles", ok, m, a,
+                            msg=f"{m.short}: `{unparse(a)[:70]}` puts something other than this iteration's fit result `{nm}` into the {role} of a mode"
+                                ": that mode's location / scale then describe a different particle set (location outside the mode's bounding box)",
+                            key=f"mode-entry:{m.name}:{role}:{norm_text(a)[:40]}")
+                others = [st for st in walk_no_nested(m.node) if isinstance(st, ast.Assign) and any(isinstance(t, ast.Name) and t.id == L for t in st.targets)
+                          and not (isinstance(st.value, (ast.List,)) and not st.value.elts)]
+                if others:
+                    raise AnalysisError(f"C19.i: {m.short}: `{L}` is also assigned by `{norm_text(others[0])[:50]}` (not modelled)")
+    R.floor("C19.i", "fit call sites whose results are followed to the constructor", n_sites, 2)
+
+
 def rule_stateless(ctx: Context, R: Reporter):
     """C19.g  the step object is a function of the state object it works on: no method other than the constructor stores
     state-derived data in the step object for a later call to read back."""
@@ -464,6 +647,8 @@ def run(ctx: Context, R: Reporter):
     R.guard(rule_e, ctx, R, fit)
     R.guard(rule_d, ctx, R)
     R.guard(rule_f, ctx, R, fit)
+    R.guard(rule_h, ctx, R, fit)
+    R.guard(rule_i, ctx, R, fit)
 
 
 def variants():
@@ -492,6 +677,15 @@ def variants():
         Variant("f-benign-per-coordinate-jitter", "benign", replace_stmt(md, "ModeStatistics.from_global", "u_resampled = u[idx_resample]", "u_resampled = u[idx_resample]\nu_resampled = u_resampled + 1e-3 * np.std(u_resampled, axis=0) * np.random.standard_normal(u_resampled.shape)")),
         Variant("e-trace-shrinkage", "bad", replace_stmt(st, "fit_mvstud", "nu = 20", "Sigma = 0.9 * Sigma + 0.1 * np.trace(Sigma) / dim * np.eye(dim)\nnu = 20"), ["C19.e"], quick=True),
         Variant("e-relative-ridge", "bad", replace_expr(st, "fit_mvstud", "1 / n * np.diag(np.var(data, axis=1))", "1 / n * np.mean(np.var(data, axis=1)) * np.eye(dim)"), ["C19.e"]),
+        Variant("i-covariance-rescaled-by-dof", "bad", replace_stmt(md, "ModeStatistics.from_global", "dof = dof_fallback", "dof = dof_fallback\ncovariance = covariance * ((dof - 2) / dof)"), ["C19.i"], quick=True),
+        Variant("i-mean-shrunk-in-place", "bad", _ib(md, "ModeStatistics.from_particles", "means.append(mean)", "mean *= 0.99"), ["C19.i"]),
+        Variant("i-tiny-mode-gets-global-fit", "bad", _ib(md, "ModeStatistics.from_particles", "u_cluster = u[idx_cluster]", "if len(idx_cluster) <= 4 * u.shape[1] and len(unique_labels) > 1:\n    g = cls.from_global(u, weights, dof_fallback=dof_fallback)\n    means.append(g.means[0])\n    covariances.append(g.covariances[0])\n    degrees_of_freedom.append(g.degrees_of_freedom[0])\n    continue"), ["C19.i"], quick=True),
+        Variant("i-benign-entries-copied", "benign", replace_stmt(md, "ModeStatistics.from_particles", "means.append(mean)", "means.append(np.asarray(mean).copy())")),
+        Variant("i-benign-covariance-contiguous", "benign", _ib(md, "ModeStatistics.from_global", "return cls(", "covariance = np.ascontiguousarray(covariance)")),
+        Variant("h-start-at-sample-mean", "bad", replace_expr(st, "fit_mvstud", "np.array([np.median(data, 1)]).T", "np.mean(data, axis=1, keepdims=True)"), ["C19.h"], quick=True),
+        Variant("h-start-at-weighted-average", "bad", replace_expr(st, "fit_mvstud", "np.array([np.median(data, 1)]).T", "np.average(data, axis=1).reshape(-1, 1)"), ["C19.h"]),
+        Variant("h-benign-median-via-quantile", "benign", replace_expr(st, "fit_mvstud", "np.median(data, 1)", "np.quantile(data, 0.5, axis=1)")),
+        Variant("h-benign-median-bound-first", "benign", replace_stmt(st, "fit_mvstud", "mu = np.array([np.median(data, 1)]).T", "centre = np.median(data, axis=1)\nmu = centre.reshape(-1, 1)")),
         Variant("e-location-global-median", "bad", replace_expr(st, "fit_mvstud", "np.median(data, 1)", "np.median(data, 1) * 0 + np.median(data)"), ["C19.e"]),
         Variant("e-benign-diag-ridge-spelled-with-std", "benign", replace_expr(st, "fit_mvstud", "np.diag(np.var(data, axis=1))", "np.diag(np.std(data, axis=1) ** 2)")),
         Variant("d-uniform-shortcut-absolute", "bad", replace_stmt(md, "ModeStatistics.from_particles", "weights_cluster = weights_cluster / np.sum(weights_cluster)", "uniform = np.allclose(weights_cluster, weights_cluster[0])\nweights_cluster = np.ones(len(weights_cluster)) / len(weights_cluster) if uniform else weights_cluster / np.sum(weights_cluster)"), ["C19.d"], quick=True),
